@@ -43,6 +43,12 @@ CHECKS = {
     "C09": dict(cat="model_checking", ref="§4 C09", tech="TLC model checking of the seeding protocol with fallible sources (Seeding.tla) + trace validation of seed_from_u64 / from_rng / try_from_rng of all 19 seedable types against the documented expansions (SplitMix64, PCG32, ISAAC key layout) written in TLA+",
                 text="Error propagation, cursor advance and redraw discipline are model-checked exhaustively in a small world; on the real types every constructor's result is compared by TLC with the generator denoted by the documented expansion (state image and outputs), the source cursor and call log are checked, and fallible sources failing at calls 1..3 (partial, sticky) must yield the error and no generator.",
                 note=TB + "; u64 arguments, byte streams and failure positions on the real types are a corpus"),
+    "C10": dict(cat="model_checking", ref="§4 C10", tech="TLC model checking of CloneEq (two instances of the API machine, == as the code defines it, negative control) + observational trace monitor Trace_Pair over clone / == / lock-step schedules derived from TLC's state graph",
+                text="The model shows that the hand-written == (core and index, not the buffer) is a congruence on reachable pairs and fails without the index; on the real types clones are taken at buffer positions from the state graph and driven in lock-step with the original across refills and jumps, almost-equal pairs (one step / one seed bit / one perturbed serde field apart) are compared with ==, and the monitor rejects any observed divergence inside a class formed by clone or == true.",
+                note=TB + "; == is only required to be sound, not complete; seeds and histories are a corpus"),
+    "C11": dict(cat="model_checking", ref="§4 C11", tech="TLC model checking of CloneEq with Ser/De (negative control: half_used not serialized) + observational trace monitor Trace_Pair over snapshot/restore schedules (bincode and JSON) derived from TLC's state graph",
+                text="Snapshots are taken at every sampled (index, half_used) state of IsaacRng/Isaac64Rng and after random histories/jumps of the 16 plain serializable types, restored through bincode and serde_json, and original, pre-snapshot clone and both restored generators are driven in lock-step across a refill; any divergence, failed deserialization or == false is rejected.",
+                note=TB + "; harness built with the serde features; seeds and histories are a corpus"),
 }
 
 NOT_YET = {}
